@@ -862,7 +862,13 @@ impl CodegenContext {
                                     None => self.current_scope_nx,
                                 };
 
-                                for (child_id, child_nx) in self.symbols.children(import_nx) {
+                                // (in a fixed order, so a clash is always reported for the same symbol)
+                                for (child_id, child_nx) in self
+                                    .symbols
+                                    .children(import_nx)
+                                    .into_iter()
+                                    .sorted_by(|a, b| a.0.cmp(&b.0))
+                                {
                                     // Do not import special identifiers
                                     if child_id.is_special() {
                                         continue;
@@ -1674,7 +1680,14 @@ pub fn codegen(
                         let errors = ctx
                             .undefined
                             .iter()
-                            .sorted_by_key(|k| k.id.to_string())
+                            // (also sort by location, so the same identifier that is unknown in several places is always
+                            // reported in the same order)
+                            .sorted_by_key(|k| {
+                                (
+                                    k.id.to_string(),
+                                    k.span.map(|s| (s.low().as_usize(), s.high().as_usize())),
+                                )
+                            })
                             .map(|item| {
                                 let mut diag = Diagnostic::error()
                                     .with_message(format!("unknown identifier: {}", item.id));
